@@ -37,6 +37,7 @@ var targets = map[string][]string{
 	modPath + "/kubernetes":          {"ha_membership.go", "stateful_set_membership.go", "leader_elector.go"},
 	modPath + "/servicediscovery":    {"service_discovery.go", "rpc_client.go", "rpc_server.go"},
 	modPath + "/helpers":             {"utils.go"},
+	modPath + "/metric":              {"collector.go"},
 	"github.com/asaskevich/EventBus": {"event_bus.go"},
 }
 
